@@ -203,7 +203,8 @@ def check(rep, args):
     for cfg in configs:
         check_config(rep, facts.program(cfg))
     cov = {
-        "explanation": "provenance / dominance rules on render(), its per-vertex closure, Scanline::fragments, the Target impls and the two front doors: "
+        "explanation": "render() interpreted end to end on a reference scene (symbolic attributes and viewport matrix; shader, tri_fill, rasterize uninterpreted; the real "
+                       "clipper run) plus a must-pass rule for the clipper; Scanline::fragments interpreted symbolically; forwarding rules for the two front doors: "
                        "the shape every perspective-correct pipeline must have; no pixel value is decided",
         "evaluations": len(rep.instances),
         "distinct_nontrivial": len({i["what"] for i in rep.instances}),
